@@ -755,6 +755,7 @@ struct inst
       return "r=" + r + f + " " + obs_str('p', k.step(op{1, 0}));
     }
     if ((t[0] == "gp" && t.size() == 7) || (t[0] == "gx" && t.size() == 6) || (t[0] == "ge" && t.size() == 8))
+    try
     {
       // the last two tokens: skipper, grammar
       gast sk{}, gr{};
@@ -800,6 +801,10 @@ struct inst
         return "bad-op";
       world<Ch> const w{gr, sk};
       return run_entry<Ch>(w, t[2][0], to_text<Ch>(text), fa, nraw);
+    }
+    catch (std::logic_error const &)
+    {
+      return "exc:chars"; // basic_char_set::chars() is not what the constructor was given: never predicted
     }
     if (t[0] == "poseq" && t.size() == 4)
     {
@@ -908,7 +913,16 @@ std::string stateful(inst<Ch> &in, std::vector<std::string> const &t)
     if (!parse_gtext(t[1], true, kind_max<Ch>(), sk) || !parse_gtext(t[2], false, kind_max<Ch>(), gr) ||
         !well_formed(sk) || !well_formed(gr))
       return "bad-op";
-    world<Ch> const w{gr, sk};
+    std::unique_ptr<world<Ch>> wp;
+    try
+    {
+      wp = std::make_unique<world<Ch>>(gr, sk);
+    }
+    catch (std::logic_error const &)
+    {
+      return "exc:chars";
+    }
+    world<Ch> const &w{*wp};
     trace_stream<Ch> ts{k};
     gres res{};
     try
